@@ -41,22 +41,24 @@ Proof. intros [->|[->|[->| ->]]]; split; vm_compute; reflexivity. Qed.
 
 (* DISCONNECT and AUTH of remaining length 0, DISCONNECT of length 1, pings *)
 Lemma short_disconnect c :
-  frame_snapshot xe0 [] = Some (KDisconnect, [ON 0; OL []])
-  /\ spec_snapshot xe0 [x00] [] = Some (14, [ON 0; OL []])
-  /\ frame_snapshot xe0 [c] = Some (KDisconnect, [ON (b2n c); OL []])
-  /\ spec_snapshot xe0 [x01] [c] = Some (14, [ON (b2n c); OL []])
+  frame_snapshot xe0 [] = Some (KDisconnect, [ON 0; ON 0; OS []; OS []; OL []])
+  /\ spec_snapshot xe0 [x00] [] = Some (14, [ON 0; ON 0; OS []; OS []; OL []])
+  /\ frame_snapshot xe0 [c] = Some (KDisconnect, [ON (b2n c); ON 0; OS []; OS []; OL []])
+  /\ spec_snapshot xe0 [x01] [c] = Some (14, [ON (b2n c); ON 0; OS []; OS []; OL []])
   /\ frame_snapshot xf0 [] = Some (KAuth, [ON 0; OS []; OS []; OS []; OL []])
   /\ spec_snapshot xf0 [x00] [] = Some (15, [ON 0; OS []; OS []; OS []; OL []])
   /\ frame_snapshot xc0 [] = Some (KPingReq, []) /\ spec_snapshot xc0 [x00] [] = Some (12, [])
   /\ frame_snapshot xd0 [] = Some (KPingResp, []) /\ spec_snapshot xd0 [x00] [] = Some (13, []).
 Proof. repeat split; vm_compute; reflexivity. Qed.
 
-(* ---------------- the known finding D13 ---------------- *)
+(* ---------------- D13, repaired ---------------- *)
 (* e0 07 81 05 1f 00 02 68 69: DISCONNECT, reason 0x81, reason string "hi" -
-   valid by the specification, rejected by the library *)
-Lemma disconnect_reason_string_refuted :
+   valid by the specification; the library used to reject it (no field for
+   the property), it now decodes it *)
+Lemma disconnect_reason_string_accepted :
   spec_decode [xe0; x07; x81; x05; x1f; x00; x02; x68; x69]
   = Some {| af_type := 14; af_flags := 0;
             af_body := BDisc 2 129 [{| ap_id := 31; ap_val := VStr [x68; x69] |}] |}
-  /\ decode_frame xe0 [x81; x05; x1f; x00; x02; x68; x69] = Some (None, Some (EUnknownProp 31)).
+  /\ frame_snapshot xe0 [x81; x05; x1f; x00; x02; x68; x69]
+     = Some (KDisconnect, [ON 129; ON 0; OS [x68; x69]; OS []; OL []]).
 Proof. split; vm_compute; reflexivity. Qed.
